@@ -119,6 +119,8 @@ Mutations(name, S, d) ==
   \cup {Mut("delete", p) : p \in {q \in d : Field(S, q).req}}   \* a required key removed
   \cup {Mut("retype", p) : p \in Scalars(S, d)}                 \* a value of the wrong kind
   \cup {Mut("retype-table", p) : p \in TablesOf(S, d) \ {Root}} \* an array where a table must be
+  \* a one-key table named after the value where a string (or an element of a string array) must be
+  \cup {Mut("retype-as-table", p) : p \in {q \in d : Field(S, q).kind \in {"string", "strings"}}}
   \cup (IF name = "component" THEN {Mut("add", "order")} ELSE {})
   \cup (IF name = "composite" THEN {Mut("add", "targets"), Mut("add", "stacks")} ELSE {})
 
